@@ -688,6 +688,27 @@ func VReplayCat(task engine.SeqTask) (res engine.SeqResult) {
 				chk.fail("C19:setns-rejected", err.Error(), nil)
 			}
 			pubNs[op.DS] = ns
+		case "setns2":
+			// one batch into core.Dataset carrying two meta-entities: the one of op.To as it is, then the one of op.DS with
+			// new public namespaces (a client that posts the whole catalogue back with one entry edited)
+			_, toExists := h.M.Datasets[op.To]
+			if !exists || !toExists {
+				res.Skip, res.Key = true, "skip"
+				return
+			}
+			info, _ := w.Store.NamespaceManager.GetDatasetNamespaceInfo()
+			first, err1 := w.Store.GetEntity(info.DatasetPrefix+":"+h.DsName(op.To), []string{datasetCore}, true)
+			meta, err2 := w.Store.GetEntity(info.DatasetPrefix+":"+h.DsName(op.DS), []string{datasetCore}, true)
+			if err1 != nil || err2 != nil || first == nil || meta == nil {
+				chk.fail("C19:setns-nometa", fmt.Sprintf("meta-entities not found: %v %v", err1, err2), nil)
+				break
+			}
+			ns := []string{"http://pub" + fmt.Sprint(op.N) + ".example/"}
+			meta.Properties[info.PublicNamespacesKey] = ns
+			if err := w.Dsm.GetDataset(datasetCore).StoreEntities([]*Entity{first, meta}); err != nil {
+				chk.fail("C19:setns-rejected", err.Error(), nil)
+			}
+			pubNs[op.DS] = ns
 		case "restart":
 			w.Restart()
 		}
@@ -864,7 +885,7 @@ func init() {
 		})
 	})
 	engine.RegisterCheck("C19", func(r *engine.Run) {
-		r.Rule = "SEQ: every sequence up to the stated depth over {create (plain / public namespaces / proxy), delete, rename, re-create, batches and transactions with repeated, re-stored and globally-known ids, meta-entity update of public namespaces, restart}; after every history the dataset list, the meta-entities in core.Dataset (exactly one live per existing dataset, only deleted ones for removed names, name and settings carried, items = distinct ids ever stored per the reference model) and GetDatasetDetails are compared; one long history with 1003 (thorough: 2100) datasets, two of them deleted and one re-created, before and after a restart. SCHED: concurrent writers whose counter updates funnel through core.Dataset, final catalogue compared"
+		r.Rule = "SEQ: every sequence up to the stated depth over {create (plain / public namespaces / proxy), delete, rename, re-create, batches and transactions with repeated, re-stored and globally-known ids, meta-entity update of public namespaces (alone, and as the second entity of a batch into core.Dataset), restart}; after every history the dataset list, the meta-entities in core.Dataset (exactly one live per existing dataset, only deleted ones for removed names, name and settings carried, items = distinct ids ever stored per the reference model) and GetDatasetDetails are compared; one long history with 1003 (thorough: 2100) datasets, two of them deleted and one re-created, before and after a restart. SCHED: concurrent writers whose counter updates funnel through core.Dataset, final catalogue compared"
 		r.Assumptions = []string{"badger transactions are linearizable", "all observation points are quiescent"}
 		pool := model.Pool(0)
 		pi := func(n string) int { return model.PoolIndex(pool, n) }
@@ -875,7 +896,7 @@ func init() {
 			{K: "batch", DS: "A", Ents: []VEnt{{"e1", pi("v2")}, {"e2", pi("r1")}, {"e1", pi("dv1")}}},
 			{K: "batch", DS: "B", Ents: []VEnt{{"e1", pi("v1")}, {"e1", pi("v1")}}},
 			{K: "txn", Parts: map[string][]VEnt{"A": {{"e2", pi("v1")}, {"e3", pi("v1")}}, "B": {{"e2", pi("v2")}}}},
-			{K: "setns", DS: "A", N: 1}, {K: "setns", DS: "B", N: 2},
+			{K: "setns", DS: "A", N: 1}, {K: "setns", DS: "B", N: 2}, {K: "setns2", DS: "B", To: "A", N: 3},
 			{K: "restart"},
 		}
 		depth, budget := 5, 150
